@@ -3434,6 +3434,11 @@ func (t *Topic) evictUser(uid types.Uid, unsub bool, skip string) {
 			}
 		}
 	}
+
+	// If the eviction has detached the last session, start the kill timer like a leave does.
+	if len(t.sessions) == 0 && t.cat != types.TopicCatSys && t.killTimer != nil {
+		t.killTimer.Reset(idleMasterTopicTimeout)
+	}
 }
 
 // User's subscription to a topic has changed, send presence notifications.
